@@ -18,11 +18,15 @@ pub fn verif_into_entries<K, V>(m: HashMap<K, V>) -> (r: Vec<(K, V)>)
     m.into_iter().collect()
 }
 
-// ---- rule E5: `M.entry(K).or_insert_with(Vec::new).extend(X)` --------------------------------------
-// vstd has no specification for `Entry::or_insert_with` nor `Vec::extend`. Trusted, from the std docs
-// ("Ensures a value is in the entry by inserting the result of the default function if empty, and
-// returns a mutable reference to the value in the entry"; `Extend for Vec` appends in order):
+// ---- rule E5: `M.entry(K).or_insert_with(Vec::new).extend(X)` / `M.entry(K).or_default().extend(X)` ----
+// vstd has no specification for `Entry::or_insert_with` / `Entry::or_default` nor `Vec::extend`. Trusted, from
+// the std docs ("Ensures a value is in the entry by inserting the result of the default function if empty, and
+// returns a mutable reference to the value in the entry"; `or_default`: "... by inserting the default value if
+// empty", and `Vec::default()` is `Vec::new()`: the two spellings are the same call for a `Vec` value;
+// `Extend for Vec` appends in order):
 // M' = M[K -> M.get_or(K, []) ++ X], every other key untouched.
+// Anchors (in the group templates): `$m.entry(KEY).or_insert_with(Vec::new).extend($v)` (merge, report:V8p) and
+// `$m.entry(KEY).or_default().extend($v)` (report:V8p), both -> `verif_map_extend(&mut $m, KEY, $v)`.
 #[verifier::external_body]
 pub fn verif_map_extend<K: std::cmp::Eq + std::hash::Hash, T>(m: &mut HashMap<K, Vec<T>>, k: K, x: Vec<T>)
     ensures
